@@ -581,7 +581,8 @@ def _verify_lemma(self, name, L):
         for cl in clauses(h): p.assume(ev_clause(cl))
     self.vcs.append(VC('cover/hyps', list(p.pc), z3.BoolVal(False), 'cover', 0, self.fn.key, expect='sat'))
     for u in L.get('uses', []):
-        self.use_lemma(u[0], u[1], p, 'uses', conditional=(len(u) > 2 and u[2] == 'if-applicable'))
+        mode = u[2] if len(u) > 2 else ''
+        self.use_lemma(u[0], u[1], p, 'uses', conditional=(mode == 'if-applicable'), forall=(mode[7:] if mode.startswith('forall:') else None))
     if 'induct' in L:
         # claim(m) for all lo <= m <= hi, by induction on m: base and step are separate VCs (the induction
         # principle itself is part of the trusted engine)
